@@ -97,12 +97,12 @@ func Compare(aVal, bVal reflect.Value) int {
 		}
 		return 0
 	case reflect.Slice:
-		for i := 0; i < aVal.Len(); i++ {
+		for i := 0; i < aVal.Len() && i < bVal.Len(); i++ {
 			if c := Compare(aVal.Index(i), bVal.Index(i)); c != 0 {
 				return c
 			}
 		}
-		return 0
+		return Compare(reflect.ValueOf(aVal.Len()), reflect.ValueOf(bVal.Len()))
 	case reflect.Array:
 		for i := 0; i < aVal.Len(); i++ {
 			if c := Compare(aVal.Index(i), bVal.Index(i)); c != 0 {
